@@ -27,6 +27,10 @@ def check(repo: Repo, rep, tier):
     default_guard(repo, rep)
     clone_def(repo, rep)
     fmt_taint_fragment(repo, rep)
+    type_qualname(repo, rep)
+    from .C03 import line_model
+
+    line_model(repo, rep)
 
 
 def create_exh(repo: Repo, rep):
@@ -237,3 +241,23 @@ def default_guard(repo: Repo, rep):
                                 construct=f"{c.name}:expr",
                             )
     rep.floor("R-DEFAULT-GUARD", "is_default decisions", n, 4)
+
+
+def type_qualname(repo: Repo, rep):
+    rep.rule(
+        "R-TYPE-QUALNAME",
+        "sibling agreement of the code generators in _code_repr.py: wherever the name of a type is written into generated code (HasRepr.__repr__, the "
+        "repr of types, enums, flags, dataclass-like values) it is the type's `__qualname__` - `__name__` drops the outer class of a nested class "
+        "(`Device.Handle` -> `Handle`), the file stays valid and equal in the creating session but raises NameError when read back",
+    )
+    n = 0
+    for f in repo.pkg_funcs():
+        if f.module.rel != "_code_repr.py":
+            continue
+        for a in [x for x in body_nodes(f.node) if isinstance(x, ast.Attribute) and x.attr in ("__name__", "__qualname__")]:
+            n += 1
+            if a.attr == "__qualname__":
+                rep.ok("R-TYPE-QUALNAME", f, a, f"`{norm(a)}`")
+            else:
+                rep.violation("R-TYPE-QUALNAME", f, a, f"{f.qualname} writes `{norm(a)}` into generated code: a class nested in another class is then named without its outer class and the snapshot raises NameError on the next run", construct=f"{f.qualname}:{norm(a)}")
+    rep.floor("R-TYPE-QUALNAME", "type names written into generated code", n, 4)
